@@ -243,7 +243,8 @@ def expand(case):
         g = case["gen"]
         pat = g["pattern"]
         m = min(g.get("nulls_first", 0), g["n"])  # the first m rows are all null
-        return [[None] * len(pat[0]) for _ in range(m)] + [list(pat[i % len(pat)]) for i in range(g["n"] - m)]
+        runs = g.get("runs", 1)  # every pattern row is repeated `runs` times in a row (blocks of one value per morsel)
+        return [[None] * len(pat[0]) for _ in range(m)] + [list(pat[(i // runs) % len(pat)]) for i in range(g["n"] - m)]
     if "appends" in case:  # a sequence case: everything the frame ever holds
         return list(case["rows"]) + [r for chunk in case["appends"] for r in chunk]
     return case["rows"]
@@ -300,6 +301,8 @@ def valid_case(c):
                 return False
             if "nulls_first" in g and (not isinstance(g["nulls_first"], int) or isinstance(g["nulls_first"], bool) or g["nulls_first"] < 0):
                 return False
+            if "runs" in g and (not isinstance(g["runs"], int) or isinstance(g["runs"], bool) or g["runs"] < 1):
+                return False
             rows = g["pattern"]
         else:
             rows = c["rows"]
@@ -352,6 +355,17 @@ def valid_case(c):
                     return False
                 if not all(valid_cell(k, v) for k, v in zip(kinds, r)):
                     return False
+        if "twin" in c:
+            # a second frame holding the same rows under other column names (and optionally bound to its schema another way)
+            t = c["twin"]
+            if not isinstance(t, dict) or "arrow" in c or "appends" in c or "gen" in c:
+                return False
+            nm = t.get("names")
+            if (not isinstance(nm, list) or len(nm) != len(kinds) or len(set(nm)) != len(nm)
+                    or any(not isinstance(x, str) or not x for x in nm)):
+                return False
+            if "schema" in t and (t["schema"] not in SCHEMAS or any(k != "UNTYPED" for k in kinds) or "cells" in c):
+                return False
         n = c["gen"]["n"] if "gen" in c else len(rows)
         for k in c.get("cuts", []):
             # 0 and n are ways of cutting too: one batch has no rows (not through Arrow: a table without rows)
@@ -423,7 +437,7 @@ def _objects(kinds, rows, cells=None):
     return [tuple(pyvalue(k, v, f, i) for k, v, f in zip(kinds, r, cells)) for i, r in enumerate(rows)]
 
 
-def _frame(kinds, rows, cells=None, lazy=False, arrow=None, schema=None):
+def _frame(kinds, rows, cells=None, lazy=False, arrow=None, schema=None, names=None):
     from orso import DataFrame
     from orso.schema import FlatColumn, RelationSchema
     from orso.types import OrsoTypes
@@ -434,19 +448,20 @@ def _frame(kinds, rows, cells=None, lazy=False, arrow=None, schema=None):
         # built from integers in the column's own unit (no calendar on the way in); cells arrive as orso makes them
         table = pyarrow.table({"c%d" % j: _arrow_array(t, [r[j] for r in rows]) for j, t in enumerate(arrow)})
         return DataFrame.from_arrow(table)
+    names = names or ["c%d" % j for j in range(len(kinds))]  # by position
     if schema == "names":  # the schema is a plain list of names
         data = _objects(kinds, rows, cells)
-        return DataFrame(rows=(r for r in data) if lazy else data, schema=["c%d" % j for j in range(len(kinds))])
+        return DataFrame(rows=(r for r in data) if lazy else data, schema=list(names))
     if schema == "dicts":  # built from dictionaries; a key left out of a later dictionary is a null
         data = _objects(kinds, rows, cells)
-        dicts = [{"c%d" % j: v for j, v in enumerate(r) if i == 0 or i % 2 == 0 or v is not None} for i, r in enumerate(data)]
+        dicts = [{names[j]: v for j, v in enumerate(r) if i == 0 or i % 2 == 0 or v is not None} for i, r in enumerate(data)]
         return DataFrame((d for d in dicts) if lazy else dicts)
     cols = []
     for j, k in enumerate(kinds):
         if k == "UNTYPED":
-            cols.append(FlatColumn(name="c%d" % j))
+            cols.append(FlatColumn(name=names[j]))
         else:
-            cols.append(FlatColumn(name="c%d" % j, type=getattr(OrsoTypes, k)))
+            cols.append(FlatColumn(name=names[j], type=getattr(OrsoTypes, k)))
     schema = RelationSchema(name="t", columns=cols)
     data = _objects(kinds, rows, cells)
     if lazy:  # lazily backed frame: rows come from a generator until something materialises them
@@ -789,6 +804,38 @@ def oracle_column(kind, vals, d, model_side=False, skip=()):
 
 def _show(v):
     return str(v) if isinstance(v, Fraction) else v
+
+
+def listed_counts_clause(kind, vals, d):
+    """What every sum of batch profiles still owes the most-frequent clause (the rest is open finding K06): a value
+    the sum LISTS is a value of the concatenation, listed once, with its exact occurrence count there.  The unchanged
+    `ColumnProfile.__add__` guarantees it for every grouping of every number of batches (values listed on both sides
+    with the counts added; the other side's list only next to a side that holds no values; else nothing)."""
+    if kind not in NUMERIC + TEMPORAL + ("VARCHAR",) or d.get("absent") or "raised" in d:
+        return None
+    nn = [v for v in vals if v is not None]
+    if non_finite(kind, nn):
+        return None
+    counts = {}
+    for v in nn:
+        e = exact(kind, v)
+        counts[e] = counts.get(e, 0) + 1
+    if d["mfv_lens"][0] != d["mfv_lens"][1]:
+        return "%d listed values but %d listed counts" % tuple(d["mfv_lens"])
+    seen = set()
+    for label, c in d["mfv"]:
+        try:
+            v = parse_label(kind, label)
+        except (ValueError, ArithmeticError):
+            return "listed value %r is not a value of the column" % (label,)
+        if v in seen:
+            return "value %r is listed twice" % (label,)
+        seen.add(v)
+        if v not in counts:
+            return "listed value %r does not occur in the rows" % (label,)
+        if counts[v] != c or isinstance(c, bool):
+            return "value %r is listed with count %r, it occurs %d times in the rows" % (label, c, counts[v])
+    return None
 
 
 # --------------------------------------------------------------------------- model
@@ -1157,6 +1204,11 @@ def check_case(case):
             if k in NUMERIC + TEMPORAL and not non_finite(k, [r[j] for r in rows if r[j] is not None]) and hist_mass(d) != nn:
                 return ("sum-histogram", "column %d (%s): the histogram counts of %s sum to %r for %d non-null values"
                         % (j, k, label, hist_mass(d), nn), j)
+        for j, k in enumerate(kinds):
+            t = listed_counts_clause(k, [r[j] for r in rows], sum_cols[j])
+            if t is not None:
+                return ("sum-mfv", "column %d (%s): most-frequent list of %s: %s" % (j, k, label, t), j)
+        res["checks"]["sum-listed-counts"] = res["checks"].get("sum-listed-counts", 0) + 1
         return None
 
     sides = {}
@@ -1218,10 +1270,17 @@ def check_case(case):
                 res["failure"] = ("add-raised", "adding the profiles of rows[:%d] and rows[%d:] raised %s: %s"
                                   % (cut, cut, type(e).__name__, str(e)[:100]), None)
                 return res
-    # three batches: (a + b) + c and a + (b + c), the outer operands being the ones already used above
+    # three batches: (a + b) + c and a + (b + c), the outer operands being the ones already used above; for a small frame
+    # every pair of inner cuts (three non-empty batches: e.g. a | b | a, where the first two batches share no value)
     inner = sorted(set(cuts))
+    pairs = []
     if len(inner) >= 2 and inner[0] < inner[1]:
-        c1, c2 = inner[0], inner[1]
+        pairs.append((inner[0], inner[1]))
+    if len(rows) <= 6:
+        strict = [k for k in inner if 0 < k < len(rows)]
+        pairs += [(a, b) for i, a in enumerate(strict) for b in strict[i + 1:] if (a, b) not in pairs]
+        pairs = pairs[:3]
+    for c1, c2 in pairs:
         with warnings.catch_warnings():
             warnings.simplefilter("ignore")
             try:
@@ -1237,12 +1296,58 @@ def check_case(case):
                 if f is not None:
                     res["failure"] = f
                     return res
-                res["checks"]["three-batches"] = 1
+                res["checks"]["three-batches"] = res["checks"].get("three-batches", 0) + 1
             except Exception as e:
                 res["failure"] = ("add-raised", "adding the profiles of rows[:%d], rows[%d:%d] and rows[%d:] raised %s: %s"
                                   % (c1, c1, c2, c2, type(e).__name__, str(e)[:100]), None)
                 return res
+    if case.get("twin"):
+        f = twin_clause(case, rows, res)
+        if f is not None:
+            res["failure"] = f
+            return res
     return res
+
+
+def twin_clause(case, rows, res):
+    """Two frames holding the SAME rows under different column names (or the same names bound another way), profiled
+    back to back: A (the case's own names), then B (the twin's names), then A again.  Every profile must describe its
+    own frame: column `names[i]` of B is the column at position i."""
+    kinds = case["kinds"]
+    t = case["twin"]
+    names = t["names"]
+    cells, lazy, entry = cell_forms(case), bool(case.get("lazy")), case.get("entry")
+    own = ["c%d" % j for j in range(len(kinds))]
+
+    def judge(tp, nm, label, view):
+        cols = [_column_dict(tp.column(n_)) for n_ in nm]
+        if view:
+            res["views"].append((label, rows, cols))
+        for j, k in enumerate(kinds):
+            f = oracle_column(k, [r[j] for r in rows], cols[j])
+            if f is not None:
+                return (f[0], "%scolumn %r (position %d, %s): %s" % (label, nm[j], j, k, f[1]), j)
+        got = entry_names(tp)
+        if rows and got != list(nm):
+            return ("entries", "%sthe profile lists the columns %r, the frame has %r" % (label, got, list(nm)), None)
+        return None
+
+    with warnings.catch_warnings():
+        warnings.simplefilter("ignore")
+        try:
+            fa = _frame(kinds, rows, cells, lazy, None, case.get("schema"))
+            fb = _frame(kinds, rows, cells, lazy, None, t.get("schema", case.get("schema")), names=names)
+            f = judge(profile_of(fa, entry), own, "first of two frames holding the same rows: ", False)
+            f = f or judge(profile_of(fb, entry), names, "a second frame holding the same rows under the column names %r, profiled right "
+                           "after the first (names %r): " % (names, own), True)
+            f = f or judge(profile_of(fa, entry), own, "the first frame (names %r) profiled again after a frame holding the same rows "
+                           "under the names %r: " % (own, names), True)
+        except Exception as e:
+            return ("raised", "profiling two frames holding the same rows under the names %r and %r, one after the other, raised %s: %s"
+                    % (own, names, type(e).__name__, str(e)[:120]), None)
+    if f is None:
+        res["checks"]["twin"] = 1
+    return f
 
 
 def _short(x):
@@ -1250,7 +1355,7 @@ def _short(x):
     return t if len(t) <= 160 else t[:157] + "..."
 
 
-SUM_CLAUSES = ("additive", "add-raised", "operand-changed", "sum-unrepeatable", "sum-histogram")
+SUM_CLAUSES = ("additive", "add-raised", "operand-changed", "sum-unrepeatable", "sum-histogram", "sum-mfv")
 
 
 def shrink_case(case, what):
@@ -1278,6 +1383,8 @@ def shrink_case(case, what):
                 c2["appends"] = [[[r[j]] for r in chunk] for chunk in c["appends"]]
             if "other" in c:
                 c2["other"] = [[r[j]] for r in c["other"]]
+            if "twin" in c:
+                c2["twin"] = dict(c["twin"], names=[c["twin"]["names"][j]])
             if still(c2):
                 c = c2
                 break
@@ -1323,7 +1430,7 @@ def shrink_case(case, what):
             if still(c2):
                 c = c2
                 break
-    for drop in ("lazy", "cells", "other", "arrow", "entry", "schema"):
+    for drop in ("twin", "lazy", "cells", "other", "arrow", "entry", "schema"):
         if drop in c:
             c2 = {k: v for k, v in c.items() if k != drop}
             if still(c2):
@@ -1375,9 +1482,29 @@ def evaluate(ctx, cases):
         if n >= bsz - 1:
             ctx.hit("morsels:%s:%s" % (skind, "batch-1" if n == bsz - 1 else "batch" if n == bsz else "batch+1" if n == bsz + 1
                                        else "2*batch+3" if n == 2 * bsz + 3 else "%d..%d batches" % (n // bsz, n // bsz + 1)))
-        for key in ("operand-snapshots", "three-batches"):
+        for key in ("operand-snapshots", "three-batches", "sum-listed-counts"):
             if (res.get("checks") or {}).get(key):
-                ctx.hit("sum:" + key)
+                ctx.hit("sum:" + key, (res.get("checks") or {}).get(key))
+        if (res.get("checks") or {}).get("twin"):
+            tw = c["twin"]
+            ctx.hit("twin-frames:same-rows-" + ("renamed" if set(tw["names"]) != {"c%d" % j for j in range(len(kinds))} else
+                                                "same-names-same-order" if tw["names"] == ["c%d" % j for j in range(len(kinds))] else "names-permuted")
+                    + (":other-schema-kind" if tw.get("schema", c.get("schema")) != c.get("schema") else ""))
+        if "gen" in c and c["gen"].get("runs", 1) > 1:
+            ctx.hit("morsels:one-value-per-morsel")
+        for j, k in enumerate(kinds):
+            if k == "VARCHAR":
+                for r in rows[:400]:
+                    v = r[j]
+                    if isinstance(v, str) and not v.isascii():
+                        nb, nch = len(v.encode("utf-8")), len(v)
+                        w = consts()["prefix"]
+                        if nch <= w < nb:
+                            ctx.hit("text:non-ascii:at most %d characters, more than %d bytes" % (w, w))
+                        elif nch > w:
+                            ctx.hit("text:non-ascii:more than %d characters" % w)
+                        elif nb >= w - 1:
+                            ctx.hit("text:non-ascii:%d..%d bytes" % (w - 1, w))
         if (res.get("checks") or {}).get("estimates-asked"):
             ctx.hit("estimates-asked-profile-unchanged")
         if "appends" in c:
@@ -1680,8 +1807,16 @@ def domain(rng, kind, size):
                 v = "%d.%s" % (rng.randint(-99, 99), "0" * rng.randint(1, 3))
         elif kind == "VARCHAR":
             r = rng.random()
-            if r < 0.5:
+            if r < 0.45:
                 v = rng.choice(TEXT_POOL)
+            elif r < 0.55:
+                # around the profiled window (SIXTY_FOUR_BYTES *characters*): a stem of 1-, 2-, 3- or 4-byte characters whose
+                # length in characters or in UTF-8 bytes is next to the window, and a short tail
+                w = consts()["prefix"]
+                u = rng.choice(["x", "é", "α", "中", "\U0001f600"])
+                nb = len(u.encode("utf-8"))
+                k = rng.choice([w - 1, w, w + 1]) if rng.random() < 0.5 else max(1, rng.choice([w - 1, w, w + 1]) // nb)
+                v = u * (k - rng.randint(0, 2)) + rng.choice(["", "a", "b", "ab", "ω", "ba"])
             else:
                 v = "".join(rng.choice("abAB zé0中") for _ in range(rng.randint(0, 10)))
         elif kind == "BOOLEAN":
@@ -1784,6 +1919,18 @@ def random_case(ctx, big=False):
             c["cuts"] = sorted(set(rng.randint(1, n - 1) for _ in range(rng.randint(1, 3))))
     if "arrow" not in c and c.get("schema") != "dicts" and rng.random() < 0.15:
         c["cuts"] = sorted(set(c.get("cuts", []) + [rng.choice([0, n])]))  # one batch without rows
+    if "arrow" not in c and rng.random() < (0.2 if ncols > 1 else 0.06):
+        # a second frame holding the same rows under permuted / other names, profiled right after this one
+        own = ["c%d" % j for j in range(ncols)]
+        names = list(own)
+        if ncols > 1 and rng.random() < 0.7:
+            while names == own:
+                rng.shuffle(names)
+        else:
+            names = ["k%d" % j for j in range(ncols)]
+        c["twin"] = {"names": names}
+        if all(k == "UNTYPED" for k in kinds) and "cells" not in c and rng.random() < 0.5:
+            c["twin"]["schema"] = rng.choice(SCHEMAS)
     return c
 
 
@@ -1955,6 +2102,11 @@ def morsel_cases(ctx):
         out.append({"kinds": ["INTEGER", "VARCHAR", "DOUBLE"], "arrow": ["int64", "string", "double"], "gen": {"n": n, "pattern": apat}})
     out.append({"kinds": ["DATE", "TIMESTAMP", "BOOLEAN"], "arrow": ["date32", "timestamp[us]", "bool"],
                 "gen": {"n": b + 1, "pattern": [[0, 5, True], [None, None, None], [DATE_MAX, [TS_MAX, 999999], False]]}, "cuts": [b]})
+    # three morsels, one value per morsel, the third repeating the first: the first two share no listed value, so their sum
+    # holds values and lists none; the third morsel's list must not be adopted with the third morsel's counts
+    out.append({"kinds": ["VARCHAR", "INTEGER"], "gen": {"n": 2 * b + 10, "pattern": [["x", 7], ["y", -3]], "runs": b}})
+    if thorough:
+        out.append({"kinds": ["TIMESTAMP", "DOUBLE"], "gen": {"n": 3 * b + 1, "pattern": [[5, 0.5], [9, -1.5], [5, 2.0]], "runs": b}, "lazy": True})
     return out
 
 
@@ -1972,6 +2124,78 @@ def schema_edge_cases():
                 "rows": [[0, "ab", -0.5, True], [None, None, None, None], [-3, "b", 0.0, False], [5, "", -1.75, True]], "cuts": [1, 2, 3]})
     out.append({"kinds": ["INTEGER", "VARCHAR"], "arrow": ["int32", "large_string"], "rows": [[None, None], [0, "日本"], [-7, "x" * 64 + "a"], [0, "x" * 64 + "b"]], "cuts": [1, 3]})
     out.append({"kinds": ["INTEGER"], "arrow": ["int64"], "rows": [[5], [3], [0]], "cuts": [1, 2]})
+    return out
+
+
+SCRIPTS = ["x", "é", "α", "中", "\U0001f600"]  # characters of 1, 2, 2, 3 and 4 UTF-8 bytes
+
+
+def text_boundary_cases():
+    """Text at the boundary of the profiled window (the first SIXTY_FOUR_BYTES *characters* of a value), in scripts of
+    1-, 2-, 3- and 4-byte characters: values of window-1 / window / window+1 characters and of window-1 / window /
+    window+1 UTF-8 bytes, differing only in the last character, only after byte `window` (still inside the window of
+    characters: two different values), only after character `window` (one value to the most-frequent list, the order
+    and the transitions; two to the sketch)."""
+    w = consts()["prefix"]
+    out = []
+    for u in SCRIPTS:
+        nb = len(u.encode("utf-8"))
+        other = "ω" if u != "ω" else "α"
+        stems = {u * k for k in (w - 2, w - 1, w, w + 1)}
+        for tot in (w - 1, w, w + 1):  # stems of exactly tot bytes: whole characters, padded with ASCII
+            k = tot // nb
+            stems.add(u * k + "a" * (tot - k * nb))
+            if nb > 1 and k > 0:
+                stems.add("a" * (tot - k * nb) + u * k)
+        stems.add(u * (w // 2) + "a")  # half the window in characters, over the window in bytes for 2+-byte scripts
+        for stem in sorted(stems):
+            a, b = stem + "a", stem + "b"
+            out.append({"kinds": ["VARCHAR"], "rows": [[a], [b], [a], [None], [b], [b]], "cuts": [1, 3]})
+            c = stem[:-1] + other  # differs in the last character of the stem
+            out.append({"kinds": ["VARCHAR"], "rows": [[c], [stem], [None], [c]], "cuts": [2]})
+    # descending / ascending runs of values that share everything but the last character, next to a short value
+    g = "αβγδεζηθικλμνξοπρστυφχψω" * 2
+    for n in (w // 2 + 1, w - 1, w):
+        st = g[: n - 1]
+        out.append({"kinds": ["VARCHAR"], "rows": [[st + "ω"], [st + "α"], [st + "ω"], [None], ["b"]], "cuts": [2]})
+        out.append({"kinds": ["VARCHAR", "INTEGER"], "rows": [[st + "α", 1], [st + "β", 2], [st + "γ", 3]], "cuts": [1, 2]})
+    return out
+
+
+def twin_cases():
+    """Two frames with identical rows and different column names / order (and the same names bound to the schema another
+    way), profiled back to back; each must be described by its own names."""
+    out = []
+    rows2 = [[1, 50], [2, None], [3, 70], [None, 80], [-4, None], [0, 100]]
+    out.append({"kinds": ["INTEGER", "INTEGER"], "rows": rows2, "twin": {"names": ["c1", "c0"]}})
+    out.append({"kinds": ["INTEGER", "INTEGER"], "rows": rows2, "twin": {"names": ["low", "high"]}, "cuts": [3]})
+    out.append({"kinds": ["INTEGER", "VARCHAR", "DOUBLE"], "rows": [[3, "b", 0.5], [None, None, -1.5], [0, "a", None]], "twin": {"names": ["c2", "c0", "c1"]}})
+    out.append({"kinds": ["INTEGER", "VARCHAR"], "rows": [[3, "b"], [None, "a"]], "twin": {"names": ["c1", "c0"]}, "lazy": True})
+    out.append({"kinds": ["DATE", "TIMESTAMP"], "rows": [[0, 86400], [None, 5], [DATE_MAX, None]], "twin": {"names": ["c1", "c0"]}})
+    out.append({"kinds": ["INTEGER"], "rows": [[0], [None], [5]], "twin": {"names": ["other"]}})
+    out.append({"kinds": ["INTEGER", "INTEGER"], "rows": rows2, "twin": {"names": ["c0", "c1"]}})  # same names: nothing to tell apart
+    for e in ENTRIES:
+        out.append({"kinds": ["INTEGER", "DOUBLE"], "entry": e, "rows": [[1, None], [None, 2.5], [3, -0.5]], "twin": {"names": ["c1", "c0"]}})
+    urows = [[0, "a"], [None, "b"], [2, None], [None, None], [1.5, "c"]]
+    for sch in (None,) + SCHEMAS:
+        for tsch in SCHEMAS:
+            c = {"kinds": ["UNTYPED", "UNTYPED"], "rows": urows, "twin": {"names": ["c1", "c0"], "schema": tsch}}
+            if sch:
+                c["schema"] = sch
+            out.append(c)
+            out.append(dict(c, twin={"names": ["c0", "c1"], "schema": tsch}))  # same names, bound to the schema another way
+    return out
+
+
+def three_batch_cases():
+    """Three batches whose first two share no value and whose third repeats one of them (a | b | a), added by hand in both
+    groupings: a sum that holds values and lists none must not adopt a later batch's list with that batch's counts."""
+    out = []
+    for k in ("INTEGER", "DOUBLE", "DECIMAL", "VARCHAR", "DATE", "TIMESTAMP"):
+        a, b = SMALL[k][0], SMALL[k][-1]
+        out.append({"kinds": [k], "rows": [[a], [a], [b], [b], [a]], "cuts": [2, 4]})
+        out.append({"kinds": [k], "rows": [[a], [b], [b], [a], [a], [b]], "cuts": [1, 3]})
+        out.append({"kinds": [k], "rows": [[a], [None], [b], [a], [None]], "cuts": [1, 2, 3, 4]})
     return out
 
 
@@ -2115,6 +2339,10 @@ def run(ctx):
     evaluate(ctx, sequence_edge_cases())
     evaluate(ctx, schema_edge_cases())
     lap("sequence-edge")
+    evaluate(ctx, text_boundary_cases())
+    evaluate(ctx, twin_cases())
+    evaluate(ctx, three_batch_cases())
+    lap("text-window+twins+three-batches")
     mc = morsel_cases(ctx)
     evaluate(ctx, mc)
     lap("morsels")
